@@ -66,7 +66,7 @@ def expr(ctx, e, want='N'):
     if d is not None:
         if d.startswith('self.') and d[5:] in ctx.attrs:
             return f'({ctx.attrs[d[5:]][0]} s)'
-        if d in ctx.locals:
+        if d in ctx.locals and not d.endswith('#kind'):
             return ctx.locals[d]
         if d in ctx.consts:
             return ctx.consts[d]
@@ -185,6 +185,34 @@ def stmts(ctx, body, k):
             else:
                 err(st, f'assignment to attribute of kind {kind} not supported')
             return f'(let s := {setter(ctx, attr, v)} in\n   {stmts(ctx, rest, k)})'
+        if isinstance(tgt, ast.Tuple) and len(tgt.elts) == 2 and isinstance(val, ast.Call):
+            # self.a, self.b = self.obj.value()
+            f = dotted(val.func)
+            parts = f.split('.') if f else []
+            d0, d1 = dotted(tgt.elts[0]), dotted(tgt.elts[1])
+            if (len(parts) == 3 and parts[0] == 'self' and parts[1] in ctx.attrs and ctx.attrs[parts[1]][1].startswith('obj:')
+                    and d0 and d1 and d0.startswith('self.') and d1.startswith('self.') and d0[5:] in ctx.attrs and d1[5:] in ctx.attrs):
+                m = ctx.objs.get(ctx.attrs[parts[1]][1][4:], {}).get(parts[2])
+                if m and m[1] == 'pair':
+                    v = f'({m[0]} ({ctx.attrs[parts[1]][0]} s))'
+                    return (f'(let s := {setter(ctx, d0[5:], "fst " + v)} in\n   (let s := {setter(ctx, d1[5:], "snd " + v)} in\n   {stmts(ctx, rest, k)}))')
+            err(st, 'tuple assignment not supported')
+        if isinstance(tgt, ast.Name) and isinstance(val, ast.Call) and dotted(val.func) == 'bytearray':
+            # local buffer: msg = bytearray([a, b, ...])
+            if len(val.args) == 1 and isinstance(val.args[0], ast.List):
+                ctx.locals[tgt.id] = '[' + '; '.join(expr(ctx, e_) for e_ in val.args[0].elts) + ']'
+            elif not val.args:
+                ctx.locals[tgt.id] = '[]'
+            else:
+                err(st, 'bytearray(...) form not supported')
+            ctx.locals[tgt.id + '#kind'] = 'bytes'
+            return stmts(ctx, rest, k)
+        if isinstance(tgt, ast.Name) and ctx.locals.get(tgt.id + '#kind') == 'bytes' and isinstance(st, ast.AugAssign) and isinstance(st.op, ast.Add):
+            dv = dotted(st.value)
+            if dv and dv.startswith('self.') and ctx.attrs.get(dv[5:], (0, 0))[1] == 'bytes':
+                ctx.locals[tgt.id] = f'({ctx.locals[tgt.id]} ++ {ctx.attrs[dv[5:]][0]} s)'
+                return stmts(ctx, rest, k)
+            err(st, 'buffer += of an unsupported value')
         if isinstance(tgt, ast.Name):
             # local: cid = UbxCID(a, b)  /  packet = (cid, self.msg_data)  /  crc_error_message = (self.crc_error_cid, None) / val = ...
             if isinstance(val, ast.Call) and dotted(val.func) == 'UbxCID' and len(val.args) == 2:
@@ -208,9 +236,23 @@ def stmts(ctx, body, k):
             ctx.locals[tgt.id] = expr(ctx, val)
             return stmts(ctx, rest, k)
         err(st, f'assignment target {ast.dump(tgt)[:60]} not supported')
+    if isinstance(st, ast.For) and not st.orelse and isinstance(st.target, ast.Name):
+        # for d in self.<bytes attr>: self.<obj>.<update>(d)
+        it = dotted(st.iter)
+        if it and it.startswith('self.') and ctx.attrs.get(it[5:], (0, 0))[1] == 'bytes' and len(st.body) == 1:
+            saved = dict(ctx.locals)
+            ctx.locals[st.target.id] = 'd__'
+            inner = stmts(ctx, st.body, 's')
+            ctx.locals = saved
+            return (f'(let s := fold_left (fun s d__ => {inner}) ({ctx.attrs[it[5:]][0]} s) s in\n   {stmts(ctx, rest, k)})')
+        err(st, 'for loop not supported')
     if isinstance(st, ast.Expr) and isinstance(st.value, ast.Call):
         c = st.value
         f = dotted(c.func)
+        if f and '.' in f and f.split('.')[0] in ctx.locals and ctx.locals.get(f.split('.')[0] + '#kind') == 'bytes' and f.split('.')[1] == 'append' and len(c.args) == 1:
+            nm = f.split('.')[0]
+            ctx.locals[nm] = f'({ctx.locals[nm]} ++ [{expr(ctx, c.args[0])}])'
+            return stmts(ctx, rest, k)
         if f and f.startswith('self.'):
             parts = f.split('.')
             if len(parts) == 2 and parts[1] in ctx.methods:
@@ -263,6 +305,8 @@ def stmts(ctx, body, k):
         return branch(ctx, st, t, rest, k)
     if isinstance(st, ast.Return) and st.value is None:
         return 's'
+    if isinstance(st, ast.Return) and isinstance(st.value, ast.Name) and ctx.locals.get(st.value.id + '#kind') == 'bytes':
+        return f'({ctx.locals[st.value.id]}, s)'
     err(st, f'statement {type(st).__name__} not supported')
 
 
@@ -469,7 +513,29 @@ def emit_nmea_(L, NmeaParser):
     L.append('Definition gn_process (s : gnmea) (data : bytes) : gnmea := fold_left gn_process_byte data s.')
 
 
+def emit_frame_(L):
+    from ubxlib.frame import UbxFrame
+    L += ['Record gframe := mkGF { gf_cls : N; gf_id : N; gf_data : bytes; gf_ck : gck; gf_cka : N; gf_ckb : N }.']
+    ff = ['gf_cls', 'gf_id', 'gf_data', 'gf_ck', 'gf_cka', 'gf_ckb']
+    for f in ff:
+        L.append(f'Definition set_{f} (s : gframe) v := mkGF ' + ' '.join('v' if g == f else f'({g} s)' for g in ff) + '.')
+    fctx = Ctx('UbxFrame', {'CID.cls': ('gf_cls', 'N'), 'CID.id': ('gf_id', 'N'), 'data': ('gf_data', 'bytes'),
+                            'checksum': ('gf_ck', 'obj:ck'), 'cka': ('gf_cka', 'N'), 'ckb': ('gf_ckb', 'N')},
+               consts={'UbxFrame.SYNC_1': str(UbxFrame.SYNC_1), 'UbxFrame.SYNC_2': str(UbxFrame.SYNC_2)},
+               methods={'_calc_checksum': 'g_calc_checksum'},
+               objs={'ck': {'add': ('g_ck_add', 'update'), 'reset': ('g_ck_reset', 'update'), 'value': ('g_ck_value', 'pair')}})
+    args, body = translate_method(fctx, UbxFrame, '_calc_checksum', [])
+    L.append(f'Definition g_calc_checksum (s : gframe) : gframe :=\n  {body}.')
+    args, body = translate_method(fctx, UbxFrame, 'to_bytes', [])
+    if not body.rstrip(')').rstrip().endswith('s') or ', s)' not in body:
+        raise TranslateError('UbxFrame.to_bytes: must end with `return <local buffer>`')
+    L.append(f'Definition g_to_bytes (s : gframe) : bytes * gframe :=\n  {body}.')
+    L.append('')
+
+
 def finish_(path, L, parts):
+    if 'frame' in parts:
+        emit_frame_(L)
     if 'nmea' in parts:
         from ubxlib.parser_nmea import NmeaParser
         emit_nmea_(L, NmeaParser)
